@@ -137,7 +137,9 @@ type Profile struct {
 	Boundary    bool // use 256-bit boundary amounts
 	// BusyFirstBlock allows transactions in block 1 (changes to genesis validators there hit known finding D8)
 	BusyFirstBlock bool
-	Contracts   bool
+	Queries        int     // up to this many Query calls after every consensus call
+	PRestart       float64 // probability of a process restart after a commit
+	Contracts      bool
 }
 
 func DefaultProfile() Profile {
